@@ -157,6 +157,9 @@ func report(o *Options, p *Program, v *Verifier, keys []string, obls []*Obligati
 			fmt.Fprintf(&b, "replay: %s\n%s\n", rp.Verdict, rp.Detail)
 		}
 		fmt.Fprintf(&b, "\n--- solver output ---\n%s\n", truncate(ob.Result.Raw, 20000))
+		if ob.Result.Status == "sat" && ob.Result.Model != "" {
+			fmt.Fprintf(&b, "\n--- counterexample (solver model, scalar symbols) ---\n%s\n", truncate(filterModel(ob.Result.Model), 30000))
+		}
 		os.WriteFile(file, []byte(b.String()), 0o644)
 		suffix := ""
 		if rp == nil || !rp.Confirmed {
@@ -296,3 +299,21 @@ type ReplayResult struct {
 }
 
 var _ = sort.Strings
+
+// filterModel keeps the scalar definitions of a z3 model (one line each).
+func filterModel(m string) string {
+	var out []string
+	lines := strings.Split(m, "\n")
+	for i := 0; i < len(lines); i++ {
+		l := strings.TrimSpace(lines[i])
+		if strings.HasPrefix(l, "(define-fun ") && strings.HasSuffix(l, " Int") || strings.HasSuffix(l, " Bool") || strings.HasSuffix(l, " Iface") || strings.HasSuffix(l, " Slice") || strings.HasSuffix(l, " Real") {
+			if i+1 < len(lines) {
+				v := strings.TrimSpace(lines[i+1])
+				if len(v) < 200 {
+					out = append(out, strings.TrimPrefix(l, "(define-fun ")+" = "+strings.TrimSuffix(v, ")"))
+				}
+			}
+		}
+	}
+	return strings.Join(out, "\n")
+}
